@@ -21,6 +21,7 @@ import (
 
 	"github.com/containers/nri-plugins/pkg/agent/podresapi"
 	resmgrapi "github.com/containers/nri-plugins/pkg/apis/resmgr/v1alpha1"
+	instrmetrics "github.com/containers/nri-plugins/pkg/instrumentation/metrics"
 	"github.com/containers/nri-plugins/pkg/resmgr/cache"
 	"github.com/containers/nri-plugins/pkg/resmgr/events"
 	"github.com/containers/nri-plugins/pkg/resmgr/policy"
@@ -59,7 +60,10 @@ func (c *c15Cache) InsertPod(p *api.PodSandbox, ch <-chan *podresapi.PodResource
 	c.mon.access("cache.InsertPod")
 	return c.Cache.InsertPod(p, ch)
 }
-func (c *c15Cache) DeletePod(id string) cache.Pod { c.mon.access("cache.DeletePod"); return c.Cache.DeletePod(id) }
+func (c *c15Cache) DeletePod(id string) cache.Pod {
+	c.mon.access("cache.DeletePod")
+	return c.Cache.DeletePod(id)
+}
 func (c *c15Cache) LookupPod(id string) (cache.Pod, bool) {
 	c.mon.access("cache.LookupPod")
 	return c.Cache.LookupPod(id)
@@ -108,7 +112,10 @@ type c15Policy struct {
 	mon *c15Monitor
 }
 
-func (p *c15Policy) Reconfigure(c interface{}) error { p.mon.access("policy.Reconfigure"); return p.Policy.Reconfigure(c) }
+func (p *c15Policy) Reconfigure(c interface{}) error {
+	p.mon.access("policy.Reconfigure")
+	return p.Policy.Reconfigure(c)
+}
 func (p *c15Policy) Sync(a, d []cache.Container) error {
 	p.mon.access("policy.Sync")
 	return p.Policy.Sync(a, d)
@@ -139,10 +146,11 @@ func (p *c15Policy) GetTopologyZones() []*policy.TopologyZone {
 }
 
 type c15Menu struct {
-	name    string
-	s       *scenario
-	setup   []string   // sequential prefix (after the scenario prefix)
-	threads [][]string // one event list per logical thread
+	exporter bool // prometheus export on: every handler also takes the metrics gatherer lock
+	name     string
+	s        *scenario
+	setup    []string   // sequential prefix (after the scenario prefix)
+	threads  [][]string // one event list per logical thread
 }
 
 func c15Menus(thorough bool) []c15Menu {
@@ -177,6 +185,19 @@ func c15Menus(thorough bool) []c15Menu {
 		add("runpod||create", nil, []string{"run:p2"}, []string{"create:c0"})
 		add("start||remove||reconf", []string{"create:c0", "create:c1", "stop:c1"}, []string{"start:c0"}, []string{"remove:c1"}, []string{"reconf:1"})
 		add("stop,remove||create", []string{"create:c0"}, []string{"stop:c0", "remove:c0"}, []string{"create:c1"})
+		// the same with the metrics exporter on (a second lock taken by every handler)
+		for _, base := range []string{"stoppod||create", "create||reconf", "rmpod||reconf", "sync||reconf", "update||stop"} {
+			for i := range out {
+				if out[i].name == pol+"/"+base {
+					cp := out[i]
+					cp.s = mk()
+					cp.name += "+exporter"
+					cp.exporter = true
+					out = append(out, cp)
+					break
+				}
+			}
+		}
 		if thorough {
 			add("create||create||reconf", nil, []string{"create:c0"}, []string{"create:c1"}, []string{"reconf:1"})
 			add("stop||stop||sync", []string{"create:c0", "create:c1"}, []string{"stop:c0"}, []string{"stop:c1"}, []string{"sync"})
@@ -223,6 +244,9 @@ func c15Setup(mn *c15Menu, dir string) (*exec, *c15Monitor, error) {
 		p.GetPodResources()
 	}
 	x.freezeSync()
+	if err := instrmetrics.VerifSetGatherer(mn.exporter); err != nil {
+		return nil, nil, err
+	}
 	mon := &c15Monitor{m: x.in.m, violations: map[string]string{}}
 	x.in.m.cache = &c15Cache{Cache: x.in.m.cache, mon: mon}
 	x.in.m.policy = &c15Policy{Policy: x.in.m.policy, mon: mon}
@@ -373,6 +397,7 @@ func TestVerifC15(t *testing.T) {
 			w.Sample(map[string]any{"menu": mn.name, "setup": mn.setup, "threads": mn.threads, "schedules": st.Executions})
 		}
 	}
+	instrmetrics.VerifSetGatherer(false)
 	w.Res.Outcomes = int64(len(outcomes))
 	w.Res.Nontrivial = w.Res.States
 	_ = context.Background
